@@ -8,6 +8,13 @@ ALWAYS_SORTED = {"allgather", "binary", "nary", "pex", "ranges"}   # these deliv
 WILDCARD_UNFENCED = {"nary", "nbx", "superset"}                     # known finding: back-to-back calls (DESIGN.md 9, F-C01a)
 
 
+def model_exe(ctx):
+    """the extracted c01 driver, built (or found up to date) once per check run"""
+    if getattr(ctx, "_c01_model_exe", None) is None:
+        ctx._c01_model_exe = ctx.model("c01")
+    return ctx._c01_model_exe
+
+
 def pay_byte(call, s, r, k):
     x = (call * 2654435761 + s * 40503 + r * 2246822519 + k * 9176 + 12345) & 0xffffffff
     x ^= x >> 13
@@ -57,13 +64,15 @@ class Case:
 
     def header(self):
         c = self
-        return "%d %d %d %d %d %d %d %d %d %d %d %d %d %d %d %d %d %d %d" % (
+        return "%d %d %d %d %d %d %d %d %d %d %d %d %d %d %d %d %d %d %d%s" % (
             c.P, c.seed, c.adv, c.type, c.ntop, c.nint, c.nbot, c.nranges, c.ncalls, c.sorted, c.sep_senders, c.paymode, c.paysize,
-            c.sep_payload, c.threshold, c.api, c.superseed, c.barrier, getattr(c, "reuse", 0))
+            c.sep_payload, c.threshold, c.api, c.superseed, c.barrier, getattr(c, "reuse", 0), " 1" if getattr(c, "hist", 0) else "")
 
     def text(self):
         lines = [self.header()]
         for call in range(self.ncalls):
+            if getattr(self, "hist", 0):
+                lines.append("H " + ops_text(self.ops[call]))      # reconfiguration of the ONE notify object before this round
             for p in range(self.P):
                 R = self.patterns[call][p]
                 l = [str(len(R))] + [str(q) for q in R]
@@ -74,6 +83,8 @@ class Case:
 
     def key(self):
         c = self
+        if getattr(c, "hist", 0):
+            return "history:%s-P%d-rounds%d-pay%d" % (getattr(c, "family", "x"), c.P, c.ncalls, c.paymode)
         return "%s-P%d-calls%d%s-pay%d%s" % (TYPES[c.type] if c.api in (0,) else ["", "legacy-binary", "legacy-allgather", "ext", "nary-fn"][c.api],
                                              c.P, c.ncalls, "b" if c.barrier else "", c.paymode, ("-reuse%d" % c.reuse) if getattr(c, "reuse", 0) else "")
 
@@ -114,7 +125,12 @@ def judge(case, run):
         outs[(call, rank)] = (senders, b"" if pay.strip() == "-" else bytes.fromhex(pay.strip()), npay, offs)
     tname = TYPES[c.type] if c.api == 0 else {1: "binary", 2: "allgather", 3: "ext", 4: "nary"}[c.api]
     must_sort = c.sorted or tname in ALWAYS_SORTED or c.api in (1, 2, 3, 4)
+    if getattr(c, "hist", 0):
+        probs += judge_config(c, run)
     for call in range(c.ncalls):
+        if getattr(c, "hist", 0):
+            # history on one object: the round is judged as a single call with the parameters in force
+            must_sort = c.sorted or TYPES[in_force(c)[call]["type"]] in ALWAYS_SORTED
         for p in range(c.P):
             if (call, p) not in outs:
                 probs.append(("output", "call %d rank %d produced no output" % (call, p), {}))
@@ -267,7 +283,7 @@ def merge_tie(ctx, npays, ncases):
         ctx.violation("merge-harness-crash", "sc_notify_merge harness ended with status %s after %d of %d cases: %s" % (rc, len(ilines), len(cases), err[-600:]),
                       dict(stderr=err[-3000:], next_case=cases[min(len(ilines), len(cases) - 1)][0]))
     try:
-        mexe = ctx.model("c01")
+        mexe = model_exe(ctx)
         rc2, mlines, err2 = ctx.run_lines([mexe], text, timeout=600)
         mlines = [l for l in mlines if l != ""]
         if rc2 != 0 or len(mlines) != len(cases):
@@ -368,8 +384,9 @@ def nbx_events(raw, q):
 
 
 def sup_extra(case, p, q):
-    """the superset pattern of tools/harness/c01_harness.c (call 0): p additionally contacts q"""
-    x = (case.superseed + p * 104729 + q * 1299709) & 0xffffffff
+    """the superset pattern of tools/harness/c01_harness.c (call 0; for a round cut out of a history: call `paycall`, salted with
+    the ctx of the callback in force): p additionally contacts q"""
+    x = (case.superseed + getattr(case, "supsalt", 0) * 15485863 + getattr(case, "paycall", 0) * 7919 + p * 104729 + q * 1299709) & 0xffffffff
     x ^= x >> 11
     x = (x * 0x9e3779b1) & 0xffffffff
     x ^= x >> 14
@@ -381,6 +398,8 @@ def superset_sets(case, me):
     R = case.patterns[0]
     extra = [q for q in range(P) if q not in R[me] and sup_extra(case, me, q)]
     supers = [q for q in range(P) if me in R[q] or sup_extra(case, q, me)]
+    if getattr(case, "supsalt", 0) % 2:
+        extra, supers = extra[::-1], supers[::-1]      # the harness's second callback function pushes in descending order
     return extra, supers
 
 
@@ -436,7 +455,7 @@ def cosim_line(case, run, q, trace_by_rank, accum_targets):
     evs.append("O " + ",".join(_hx(v) for v in out))
     items = "-"
     if haspay and R:
-        items = "/".join(",".join("%x" % pay_byte(0, q, r, k) for k in range(sz)) for r in R)
+        items = "/".join(",".join("%x" % pay_byte(getattr(c, "paycall", 0), q, r, k) for k in range(sz)) for r in R)
     rs = ",".join("%x" % r for r in R) if R else "-"
     more = ""
     if c.type == 8:
@@ -445,10 +464,10 @@ def cosim_line(case, run, q, trace_by_rank, accum_targets):
     return "prog %x %x %x %x %x %x %d %d %x %d %s %s%s | %s" % (c.type, P, q, (c.nranges if c.type == 7 else c.ntop), c.nint, c.nbot, 1 if c.sorted else 0, haspay, sz, eager, rs, items, more, " ; ".join(evs))
 
 
-def gen_cosim_cases(ctx, paymodes, n):
+def gen_cosim_cases(ctx, paymodes, n, sizes=None):
     rng = ctx.rng
     cases = []
-    sizes = [1, 2, 3, 4, 5, 7, 8, 9, 12, 13, 16]
+    sizes = sizes or [1, 2, 3, 4, 5, 7, 8, 9, 12, 13, 16]
     for i in range(n):
         typ = COSIM_TYPES[i % len(COSIM_TYPES)]
         P = rng.choice([1, 2, 3, 4, 5, 6, 7, 8, 9, 11, 12, 13, 16, 17])
@@ -462,9 +481,9 @@ def gen_cosim_cases(ctx, paymodes, n):
     return cases
 
 
-def cosim_tie(ctx, paymodes, ncases):
+def cosim_tie(ctx, paymodes, ncases, sizes=None):
     """co-simulate every rank of every case; returns number of rank traces walked"""
-    cases = gen_cosim_cases(ctx, paymodes, ncases)
+    cases = gen_cosim_cases(ctx, paymodes, ncases, sizes)
     rc, runs, err = run_cases(ctx, cases, trace=True)
     if rc != 0:
         crash_violation(ctx, cases, runs, rc, err, what="notify harness (co-simulation cases)")
@@ -492,7 +511,7 @@ def cosim_tie(ctx, paymodes, ncases):
                 index.append((c, q))
     nmis = 0
     try:
-        mexe = ctx.model("c01")
+        mexe = model_exe(ctx)
         rc2, mout, err2 = ctx.run_lines([mexe], "\n".join(lines) + "\n", timeout=900)
         mout = [l for l in mout if l != ""]
         if rc2 != 0 or len(mout) != len(lines):
@@ -547,13 +566,19 @@ def crash_violation(ctx, cases, runs, rc, err, what="notify harness"):
         mm = re.search(r"(sc_[a-z_0-9]+\.c:\d+)", first)
         frame = mm.group(1) if mm else None
     case = cases[idx] if idx < len(cases) else None
-    text = "%s ended with status %s while running case %d%s: %s; top libsc frame: %s" % (
-        what, rc, idx, (" [%s]" % case.header()) if case is not None else "", first or ("no sanitizer line; stderr tail: " + err[-300:].replace("\n", " | ")), frame or "none")
+    hist = ""
+    if case is not None and getattr(case, "hist", 0):
+        hist = " [history on ONE notify object, P=%d, reconfiguration before the rounds: %s]" % (case.P, " | ".join(ops_text(o) or "-" for o in case.ops))
+    text = "%s ended with status %s while running case %d%s%s: %s; top libsc frame: %s" % (
+        what, rc, idx, hist, (" [%s]" % case.header()) if case is not None else "", first or ("no sanitizer line; stderr tail: " + err[-300:].replace("\n", " | ")), frame or "none")
     key = "crash:%s" % (case.key() if case is not None else "unknown")
     rep = dict(kind="crash", sanitizer=first, libsc_frame=frame, case_index=idx, stderr=err[-3000:])
     if case is not None:
         rep["case"] = case.to_json()
+        if getattr(case, "hist", 0):
+            rep["history"] = [ops_text(o) for o in case.ops]
     ctx.violation(key, text, rep)
+    return idx
 
 
 # ---------------------------------------------------------------------------------------------------------
@@ -639,7 +664,7 @@ def cosimv_tie(ctx, ncases):
                 index.append((c, q))
     nmis = 0
     try:
-        mexe = ctx.model("c01")
+        mexe = model_exe(ctx)
         rc2, mout, err2 = ctx.run_lines([mexe], "\n".join(lines) + "\n", timeout=900)
         mout = [l for l in mout if l != ""]
         if rc2 != 0 or len(mout) != len(lines):
@@ -675,4 +700,380 @@ def reuse_cases(rng, paymodes, per_type):
                 c.patterns.append(gen_pattern(rng, c.P, "dense"))
                 c.lengths.append([[rng.choice([0, 1, 2, 3]) for _ in c.patterns[1][p]] for p in range(c.P)])
             cases.append(c)
+    return cases
+
+
+# ---------------------------------------------------------------------------------------------------------
+# HISTORIES ON ONE NOTIFY OBJECT: several rounds on the same sc_notify_t, separated by a barrier, with
+# reconfiguration between the rounds (set_type back and forth, set_widths shrinking / growing / permuted,
+# set_num_ranges, set_eager_threshold, superset callback replaced, object re-created).  Every round is judged by
+# the oracle and co-simulated exactly like a single call with the PARAMETERS IN FORCE; what is in force is computed
+# by a small state model of the object (below), by the extracted Rocq model coq/C01/Reconfig.v (driver line `cfg`)
+# and by the getters of the real object (harness lines CFG) - all three must agree after every prefix.
+# ---------------------------------------------------------------------------------------------------------
+DEFAULT_TYPE = 3                    # sc_notify_type_default = SC_NOTIFY_PEX
+NARY_DEFAULT = (2, 2, 2)            # sc_notify_nary_{ntop,nint,nbot}_default
+RANGES_DEFAULT = 25                 # sc_notify_ranges_num_ranges_default
+
+
+def ops_text(ops):
+    return " ".join(" ".join(str(x) for x in op) for op in ops)
+
+
+def obj_fresh(thr0):
+    return dict(type=DEFAULT_TYPE, thr=thr0, widths=None, nranges=None, cb=None)
+
+
+def obj_apply(o, op, thr0):
+    """state model of the notify object: a type CHANGE initialises the data of the new type (n-ary: default widths, ranges:
+    default number of ranges, superset: no callback yet); set_type to the current type changes nothing; the setters of a
+    type are legal only while the object has that type"""
+    o = dict(o)
+    k = op[0]
+    if k == "N":
+        return obj_fresh(thr0)
+    if k == "T":
+        t = op[1]
+        if t != o["type"]:
+            o["type"] = t
+            o["widths"], o["nranges"], o["cb"] = None, None, None
+            if t == 2:
+                o["widths"] = NARY_DEFAULT
+            if t == 7:
+                o["nranges"] = RANGES_DEFAULT
+    elif k == "W":
+        assert o["type"] == 2, "illegal history: set_widths on type %d" % o["type"]
+        o["widths"] = (op[1], op[2], op[3])
+    elif k == "R":
+        assert o["type"] == 7, "illegal history: set_num_ranges on type %d" % o["type"]
+        o["nranges"] = op[1]
+    elif k == "E":
+        o["thr"] = op[1]
+    elif k == "S":
+        assert o["type"] == 8, "illegal history: set_callback on type %d" % o["type"]
+        o["cb"] = op[1]
+    else:
+        raise ValueError("unknown op %r" % (op,))
+    return o
+
+
+def in_force(case):
+    """per round: the parameters in force when the round starts"""
+    o = obj_fresh(case.threshold)
+    out = []
+    for call in range(case.ncalls):
+        for op in case.ops[call]:
+            o = obj_apply(o, op, case.threshold)
+        assert o["type"] != 8 or o["cb"] is not None, "illegal history: superset round without callback"
+        out.append(dict(o))
+    return out
+
+
+def cfg_expected(o):
+    x, y, z = (o["widths"] if o["type"] == 2 else ((o["nranges"], 0, 0) if o["type"] == 7 else (0, 0, 0)))
+    return [o["type"], o["thr"], x, y, z]
+
+
+def judge_config(case, run):
+    """what the getters of the real object report before every round against the parameters in force"""
+    probs = []
+    want = [cfg_expected(o) for o in in_force(case)]
+    seen = set()
+    for l in run.extra:
+        if not l.startswith("CFG "):
+            continue
+        w = [int(x) for x in l.split()[1:]]
+        call, rank, got = w[0], w[1], w[2:]
+        seen.add((call, rank))
+        if call < len(want) and got != want[call]:
+            probs.append(("config", "round %d rank %d after `%s`: getters report type/threshold/parameters %s, in force are %s" % (
+                call, rank, ops_text(case.ops[call]), got, want[call]), dict(call=call, rank=rank, got=got, expected=want[call])))
+    if run.rc == 0 and len(seen) != case.ncalls * case.P:
+        probs.append(("config", "only %d of %d configuration reports" % (len(seen), case.ncalls * case.P), {}))
+    return probs[:4]
+
+
+def nary_depth(P, w):
+    """depth of the n-ary tree the code must use for P ranks and widths w = (ntop, nint, nbot) (used to AIM generators only)"""
+    ntop, nint, nbot = w
+    if P <= nbot:
+        return 1
+    d, prod = 2, nbot * ntop
+    while prod < P:
+        prod *= nint
+        d += 1
+    return d
+
+
+HIST_FAMILIES = ["shrink", "shrink", "grow", "permute", "randw", "types", "types", "sametype", "ranges", "thresh", "superset", "fresh", "mixed"]
+
+
+def _type_setup(rng, t, force=False):
+    """ops that put type-specific parameters in force after a switch to t (sometimes none: the defaults are in force)"""
+    if t == 2 and (force or rng.random() < 0.7):
+        return [("W", rng.choice([2, 2, 3, 4, 5, 8]), rng.choice([2, 2, 3, 4]), rng.choice([2, 2, 3, 4, 5, 16]))]
+    if t == 7 and (force or rng.random() < 0.7):
+        return [("R", rng.choice([1, 2, 3, 5, 25, 40]))]
+    if t == 8:
+        return [("S", rng.randrange(0, 6))]
+    return []
+
+
+def make_history(rng, family, paymode=0, P=None):
+    Ps = [3, 4, 5, 6, 7, 8, 9, 10, 12, 13, 16, 17]
+    P = P or rng.choice(Ps)
+    pool = [2, 3, 4, 5, 8, 16, max(2, P - 1), P, P + 1]
+    ops = []
+    if family in ("shrink", "grow"):
+        # widths whose tree depth for this P strictly increases (shrink) / decreases (grow) from round to round
+        fixed = [((8, 8, 8), (3, 3, 3)), ((3, 3, 3), (2, 2, 2)), ((2, 2, 16), (2, 2, 2)), ((8, 8, 8), (3, 3, 3), (2, 2, 2))]
+        seq = None
+        if rng.random() < 0.45:
+            seq = list(rng.choice(fixed))
+            P = rng.choice([5, 9, 12, 16] if seq[0] != (3, 3, 3) else [9, 10, 13])
+        else:
+            for _ in range(200):
+                cand = [(rng.choice(pool), rng.choice([2, 2, 3, 4]), rng.choice(pool)) for _ in range(rng.choice([2, 3, 3, 4]))]
+                cand.sort(key=lambda w: nary_depth(P, w))
+                ds = [nary_depth(P, w) for w in cand]
+                if all(a < b for a, b in zip(ds, ds[1:])):
+                    seq = cand
+                    break
+            if seq is None:
+                seq = [(P + 1, 2, P + 1), (2, 2, 2)]
+        if family == "grow":
+            seq = seq[::-1]
+        ops = [[("T", 2), ("W",) + seq[0]]] + [[("W",) + w] for w in seq[1:]]
+    elif family == "permute":
+        a, b, c = rng.sample([2, 3, 4, 5, 7, P], 3)
+        perms = [(a, b, c), (c, a, b), (b, c, a), (c, b, a), (a, c, b), (b, a, c)]
+        rng.shuffle(perms)
+        n = rng.choice([2, 3, 4])
+        ops = [[("T", 2), ("W",) + perms[0]]] + [[("W",) + w] for w in perms[1:n]]
+    elif family == "randw":
+        n = rng.choice([2, 3, 4, 5])
+        ops = [[("T", 2)] + ([("W", rng.choice(pool), rng.choice([2, 3, 4, 6]), rng.choice(pool))] if rng.random() < 0.8 else [])]
+        for _ in range(n - 1):
+            ops.append([("W", rng.choice(pool), rng.choice([2, 3, 4, 6]), rng.choice(pool))] if rng.random() < 0.85 else [])
+    elif family == "types":
+        # type switches back and forth; after switching back the DEFAULTS are in force unless set again
+        n = rng.choice([3, 4, 5])
+        t0 = rng.choice([2, 2, 7, 8, 1, 6])
+        seqt = [t0]
+        while len(seqt) < n:
+            seqt.append(rng.choice([t for t in range(9) if t != seqt[-1]]) if len(seqt) % 2 else rng.choice([t0, t0, 2, 7]))
+        cur = DEFAULT_TYPE
+        for t in seqt:
+            o = [("T", t)]
+            if t != cur or t == 8:
+                o += _type_setup(rng, t)
+            cur = t
+            ops.append(o)
+    elif family == "sametype":
+        # set_type to the type the object already has must keep the parameters
+        t = rng.choice([2, 2, 7, 8])
+        n = rng.choice([2, 3, 4])
+        ops = [[("T", t)] + _type_setup(rng, t, force=True)]
+        for _ in range(n - 1):
+            ops.append([("T", t)] if rng.random() < 0.7 else [])
+    elif family == "ranges":
+        n = rng.choice([2, 3, 4])
+        ops = [[("T", 7)] + ([("R", rng.choice([1, 2, 25]))] if rng.random() < 0.7 else [])]
+        for _ in range(n - 1):
+            ops.append([("R", rng.choice([1, 1, 2, 3, 5, 25, 60]))])
+    elif family == "thresh":
+        t = rng.randrange(9)
+        n = rng.choice([2, 3, 4])
+        ops = [[("T", t)] + _type_setup(rng, t, force=True)]
+        for _ in range(n - 1):
+            ops.append([("E", rng.choice([0, 1, 3, 4, 7, 8, 9, 64, 1024]))])
+    elif family == "superset":
+        n = rng.choice([2, 3, 4])
+        ks = rng.sample(range(0, 8), n)
+        ops = [[("T", 8), ("S", ks[0])]] + [[("S", k)] if rng.random() < 0.8 else [] for k in ks[1:]]
+    elif family == "fresh":
+        # control: the object is destroyed and created anew before every round
+        n = rng.choice([2, 3])
+        for _ in range(n):
+            t = rng.randrange(9)
+            ops.append([("N",), ("T", t)] + _type_setup(rng, t))
+    else:  # mixed: anything legal
+        n = rng.choice([3, 4, 5, 6])
+        cur, havecb = DEFAULT_TYPE, False
+        for _ in range(n):
+            o = []
+            for _ in range(rng.choice([0, 1, 1, 2, 3])):
+                r = rng.random()
+                if r < 0.35:
+                    t = rng.randrange(9)
+                    if t != cur:
+                        havecb = False
+                    cur = t
+                    o.append(("T", t))
+                elif r < 0.5:
+                    o.append(("E", rng.choice([0, 2, 4, 8, 1024])))
+                elif r < 0.55:
+                    o.append(("N",))
+                    cur, havecb = DEFAULT_TYPE, False
+                elif cur == 2:
+                    o.append(("W", rng.choice(pool), rng.choice([2, 3, 4]), rng.choice(pool)))
+                elif cur == 7:
+                    o.append(("R", rng.choice([1, 2, 3, 25])))
+                elif cur == 8:
+                    o.append(("S", rng.randrange(0, 8)))
+                    havecb = True
+            if cur == 8 and not havecb:
+                o.append(("S", rng.randrange(0, 8)))
+                havecb = True
+            ops.append(o)
+    n = len(ops)
+    sz = rng.choice([1, 3, 4, 5, 8, 9]) if paymode else 0
+    c = make_case(rng, P, 0, ncalls=n, paymode=paymode, paysize=sz, barrier=1,
+                  threshold=(rng.choice([0, sz - 1, sz, 1024]) if paymode else None),
+                  style=rng.choice(["dense", "all", "rand", "ring", "star", "high", None]))
+    c.threshold = max(c.threshold, 0)
+    c.hist, c.family = 1, family
+    c.ops = [[list(op) for op in o] for o in ops]
+    c.type = in_force(c)[0]["type"]        # header field only; the harness ignores it for histories
+    return c
+
+
+def history_cases(rng, paymodes, n):
+    cases = []
+    for i in range(n):
+        fam = HIST_FAMILIES[i % len(HIST_FAMILIES)]
+        pm = paymodes[i % len(paymodes)]
+        if fam == "thresh" and any(paymodes):
+            pm = max(paymodes[0], 1) if 1 in paymodes else pm
+        cases.append(make_history(rng, fam, paymode=pm if pm in (0, 1) else 1))
+    return cases
+
+
+def split_history(case, run):
+    """one (case, run) pair per round, shaped like a single call: parameters in force in the header fields, the OUT lines of
+    the round renumbered to call 0, the trace events of the round (every rank's events between its k-th and (k+1)-th
+    MPI_Barrier; no notify algorithm calls MPI_Barrier itself)"""
+    force = in_force(case)
+    byround = [[] for _ in range(case.ncalls)]
+    nb = [0] * case.P
+    for e in sorted(run.trace, key=lambda e: e.get("s", 0)):
+        r = e.get("r", -1)
+        if not (0 <= r < case.P):
+            continue
+        if e.get("f") == "MPI_Barrier":
+            nb[r] += 1
+            continue
+        if nb[r] < case.ncalls:
+            byround[nb[r]].append(e)
+    out = []
+    for k in range(case.ncalls):
+        o = force[k]
+        w = o["widths"] or (2, 2, 2)
+        d = dict(case.__dict__)
+        d.update(type=o["type"], ntop=w[0], nint=w[1], nbot=w[2], nranges=(o["nranges"] or 25), ncalls=1, threshold=o["thr"],
+                 patterns=[case.patterns[k]], lengths=[case.lengths[k]], hist=0, paycall=k, supsalt=(o["cb"] or 0), round=k)
+        sub = Case(**d)
+        r = mpitrace.Run(run.idx)
+        r.rc, r.mem, r.trace = run.rc, None, byround[k]
+        for ol in run.outs:
+            w0 = ol.split(" ", 1)
+            if int(w0[0]) == k:
+                r.outs.append("0 " + w0[1])
+        out.append((sub, r))
+    return out
+
+
+def history_tie(ctx, paymodes, ncases, cases=None):
+    """histories on one object: oracle on every round, configuration reports, co-simulation of every round's rank traces
+    against the extracted program with the parameters in force, and the extracted state model of the object (Reconfig.v)
+    against the getters.  Returns the cases."""
+    cases = cases if cases is not None else history_cases(ctx.rng, paymodes, ncases)
+    # a history that crashes the harness process (heap corruption) is reported with its case; the histories behind it are run
+    # in a new process (at most 4 restarts), so that one crash does not hide the other findings
+    runs, todo, ncrash = [], list(cases), 0
+    while todo:
+        rc, rs, err = run_cases(ctx, todo, trace=True)
+        if rc == 0 or ncrash >= 4:
+            runs += rs
+            if rc != 0:
+                crash_violation(ctx, todo, rs, rc, err, what="notify harness (histories on one notify object)")
+            break
+        idx = crash_violation(ctx, todo, rs, rc, err, what="notify harness (histories on one notify object)")
+        ncrash += 1
+        idx = max(0, min(idx if idx is not None else len(rs), len(todo) - 1))
+        keep = rs[:idx]
+        runs += keep + [None]
+        todo = todo[idx + 1:]
+    pairs = [(c, r) for c, r in zip(cases, runs) if r is not None]
+    if len(runs) < len(cases):
+        ctx.tie_broken("history harness run", "%d of %d runs reported" % (len(runs), len(cases)))
+    ctx.notes["history_harness_crashes"] = ctx.notes.get("history_harness_crashes", 0) + ncrash
+    lines, index, cfg_lines, cfg_index = [], [], [], []
+    fams = {}
+    nrounds = 0
+    for c, r in pairs:
+        fams[c.family] = fams.get(c.family, 0) + 1
+        ctx.count_case("history " + c.text(), nontrivial=c.P > 1 and any(len(x) for pat in c.patterns for x in pat))
+        probs = judge(c, r)
+        for kind, text, detail in probs:
+            rep = dict(case=c.to_json(), kind=kind, history=[ops_text(o) for o in c.ops])
+            rep.update(detail)
+            ctx.violation("%s:%s" % (kind, c.key()), "%s [history on one notify object, P=%d, rounds: %s] [%s]" % (
+                text, c.P, " | ".join(ops_text(o) or "-" for o in c.ops), c.header()), rep)
+        # the extracted state model after every prefix of the history
+        acc_ops = []
+        force = in_force(c)
+        for k in range(c.ncalls):
+            acc_ops = acc_ops + [op for op in c.ops[k]]
+            cfg_lines.append("cfg %x %x 0 | %s" % (c.threshold, c.P, " ".join(" ".join(("%x" % x) if isinstance(x, int) else x for x in op) for op in acc_ops)))
+            cfg_index.append((c, k, force[k]))
+        if r.rc != 0 or probs:
+            continue
+        for sub, sr in split_history(c, r):
+            nrounds += 1
+            per = mpitrace.rank_events(sr.trace, c.P)
+            acc = [[] for _ in range(c.P)]
+            for e in sr.trace:
+                if e.get("f") == "MPI_Accumulate" and 0 <= e.get("r", -1) < c.P:
+                    acc[e["r"]].append(e.get("target"))
+            for q in range(c.P):
+                l = cosim_line(sub, sr, q, per, acc)
+                if l is not None:
+                    # the same rank trace against the round the extracted STATE MODEL executes after the history so far
+                    head, evs = l.split(" | ", 1)
+                    w = head.split()
+                    more = w[13:15] if len(w) >= 15 else ["-", "-"]
+                    hist = [op for o in c.ops[:sub.round + 1] for op in o]
+                    lines.append("hprog %x %s %s %s %s %s %s %s %s %s OPS %s | %s" % (
+                        c.threshold, w[2], w[3], w[7], w[8], w[9], w[11], w[12], more[0], more[1],
+                        " ".join(" ".join(("%x" % x) if isinstance(x, int) else x for x in op) for op in hist), evs))
+                    index.append((c, sub, q))
+    nmis = 0
+    try:
+        mexe = model_exe(ctx)
+        rc2, mout, err2 = ctx.run_lines([mexe], "\n".join(lines + cfg_lines) + "\n", timeout=900)
+        mout = [l for l in mout if l != ""]
+        if rc2 != 0 or len(mout) != len(lines) + len(cfg_lines):
+            ctx.tie_broken("c01 model run (histories)", "exit %s, %d of %d lines: %s" % (rc2, len(mout), len(lines) + len(cfg_lines), err2[-500:]))
+        for (c, sub, q), l, src in zip(index, mout, lines):
+            if not l.startswith("OK"):
+                nmis += 1
+                if nmis <= 3:
+                    ctx.tie_broken("co-simulation of round %d (%s with the parameters in force) rank %d of history [%s] [%s]" % (
+                        sub.round, TYPES[sub.type], q, " | ".join(ops_text(o) or "-" for o in c.ops), c.header()), (l[:400] + " || " + src[:600]))
+        for (c, k, o), l in zip(cfg_index, mout[len(lines):]):
+            want = " ".join(_hx(v) for v in cfg_expected(o) + [o["cb"] if (o["type"] == 8 and o["cb"] is not None) else -1])
+            if l.strip() != want:
+                nmis += 1
+                if nmis <= 3:
+                    ctx.tie_broken("state model of the notify object (Reconfig.v) after round-%d prefix of [%s]" % (k, " | ".join(ops_text(x) or "-" for x in c.ops)),
+                                   "model says `%s`, parameters in force `%s`" % (l.strip(), want))
+    except vlib.BuildError as e:
+        ctx.tie_broken("c01 model build", str(e)[-1500:])
+    ctx.cov["disagreements_checked"] += len(lines) + len(cfg_lines)
+    ctx.notes["history_cases"] = ctx.notes.get("history_cases", 0) + len(cases)
+    ctx.notes["history_rounds_cosimulated"] = ctx.notes.get("history_rounds_cosimulated", 0) + nrounds
+    ctx.notes["history_rank_traces"] = ctx.notes.get("history_rank_traces", 0) + len(lines)
+    ctx.notes["history_families"] = fams
+    ctx.notes["history_mismatches"] = nmis
     return cases
